@@ -21,7 +21,7 @@ static void emit_new(int id, const hll_sketch& s) {
 }
 
 // feed items to a sketch in bulk events of at most 1000 coupons
-static void feed(int id, hll_sketch& s, const std::vector<Item>& items) {
+static void feed(int id, hll_sketch& s, const std::vector<Item>& items, bool restored = false) {
   size_t pos = 0;
   while (pos < items.size()) {
     std::vector<Coupon> cs;
@@ -29,8 +29,49 @@ static void feed(int id, hll_sketch& s, const std::vector<Item>& items) {
     for (; pos < end; pos++) { Coupon c; do_update(s, items[pos]); if (ref_coupon(items[pos], c)) cs.push_back(c); }
     if (cs.empty()) continue;
     View v = view(s, false);
-    Ev("Feed").i("id", id).raw("cs", coupons_json(cs)).i("mode", v.mode).b("empty", s.is_empty()).raw("ph", phys(s, cs.back().addr, false)).emit();
+    Ev e("Feed"); e.i("id", id).raw("cs", coupons_json(cs)).i("mode", v.mode).b("empty", s.is_empty()).raw("ph", phys(s, cs.back().addr, false));
+    if (restored) e.b("restored", true);
+    e.emit();
   }
+}
+
+// serialize s (sketch id src) in the given form, restore it through the given path as sketch id dst: Ser + Deser events
+static std::unique_ptr<hll_sketch> round_trip(int src, const hll_sketch& s, int dst, int blob, bool compact, bool stream) {
+  auto bytes = compact ? s.serialize_compact() : s.serialize_updatable();
+  std::ostringstream os; if (compact) s.serialize_compact(os); else s.serialize_updatable(os);
+  std::string st = os.str();
+  std::vector<uint8_t> img(bytes.begin(), bytes.end());
+  View v = view(s, false);
+  long long mx = v.type == 4 ? -1 : (long long)hll_sketch::get_max_updatable_serialization_bytes((uint8_t)v.lgk, tt(v.type));
+  auto cn = canon(img);
+  Ev("Ser").i("src", src).i("blob", blob).str("form", compact ? "compact" : "updatable").i("hdr", 0).i("total", (long long)img.size())
+    .i("size", (long long)img.size())
+    .i("advertised", (long long)(compact ? s.get_compact_serialization_bytes() : s.get_updatable_serialization_bytes()))
+    .i("maxsize", mx).bytes("img", img.data(), img.size()).bytes("img0", img.data(), img.size()).bytes("simg", st.data(), st.size())
+    .bytes("canon", cn.data(), cn.size()).raw("p", light(src, s)).emit();
+  long long consumed;
+  std::unique_ptr<hll_sketch> r;
+  if (!stream) { r.reset(new hll_sketch(hll_sketch::deserialize(img.data(), img.size()))); consumed = (long long)img.size(); }
+  else {
+    std::string inn((const char*)img.data(), img.size()); inn += std::string(16, '\x5a');
+    std::istringstream is(inn);
+    r.reset(new hll_sketch(hll_sketch::deserialize(is)));
+    consumed = (long long)is.tellg();
+  }
+  auto re = compact ? r->serialize_compact() : r->serialize_updatable();
+  std::vector<uint8_t> rev(re.begin(), re.end());
+  auto rcn = canon(rev);
+  View dv = view(*r, false);
+  Ev("Deser").i("blob", blob).i("dst", dst).str("path", stream ? "stream" : "bytes").str("form", compact ? "compact" : "updatable")
+    .i("type", dv.type).i("mode", dv.mode).b("empty", r->is_empty()).i("consumed", consumed)
+    .bytes("reimg", rev.data(), rev.size()).bytes("recanon", rcn.data(), rcn.size())
+    .raw("r", proj(dst, *r)).b("restored", true).emit();
+  return r;
+}
+static void obs1(int id, const hll_sketch& s) { Ev("Obs").raw("objs", "[" + proj(id, s) + "]").emit(); }
+// restored sketch next to its source: projection of the restored one, estimates of the source as reference
+static void obs_restored(int id, const hll_sketch& s, int ref, const hll_sketch& rs) {
+  Ev("Obs").raw("objs", "[" + proj(id, s) + "]").raw("ref", light(ref, rs)).b("restored", true).emit();
 }
 
 static void scalars(Ev& e, const hll_union& u) { e.i("lgk", u.get_lg_config_k()).b("empty", u.is_empty()); }
@@ -63,12 +104,18 @@ int main(int argc, char** argv) {
     // directed "adoption" shape (35 % of the segments, small lg_k so that promotion is cheap): input 0 is an HLL_4 / HLL_6 sketch
     // STILL IN LIST / SET MODE with lg_k == lg_max_k and is presented first to the empty union (which adopts a copy of it), then
     // raw items carry the gadget across its promotion to HLL mode, then HLL-mode inputs of each type with lg_k >= lg_max_k follow
-    bool adopt = !high && g.chance(35);
+    // directed C09 segment (segment 3 of every file): every input is serialized at the EMPTY state, at exactly ONE item or right
+    // after reset(), restored, and original and restored copy are then fed the same further items; presentations 1, 2 present the
+    // restored copies.  Results of the union at its empty state, after one item and after reset() get the same treatment.
+    bool rst_seg = !high && seg == 3;
+    int rst_off = (int)g.below(4);          // (form, path) combination of input i: (i + rst_off) % 4, all four occur in every file
+    if (rst_seg) { nin = NIN; lgmax = (uint8_t)g.range(std::max(4L, minlgk), std::max(minlgk, std::min(maxlgk, 10L))); }
+    bool adopt = !high && !rst_seg && g.chance(35);
     // crafted segment (segment 2 of a file and 15 % of the others): inputs 0 and 1 are deserialized from hand-written coupon-list
     // images with coupon values 32..63; input 0 is then fed on into HLL mode, input 1 stays a list and holds a LARGER value on a
     // slot of input 0, so that merging it into an HLL-mode gadget overwrites a register >= 32 (kxq1 -=) and the deferred rebuild
     // sums registers >= 32 (kxq1 +=)
-    bool crafted = !high && !adopt && (seg == 2 || g.chance(15));
+    bool crafted = !high && !adopt && !rst_seg && (seg == 2 || g.chance(15));
     if (crafted) lgmax = (uint8_t)g.range(std::max(4L, minlgk), std::max(minlgk, std::min(maxlgk, 10L)));
     std::vector<Coupon> craft0;
     if (adopt) { lgmax = (uint8_t)g.range(std::max(4L, minlgk), std::max(minlgk, std::min(maxlgk, 8L))); nin = std::max(nin, 4); }
@@ -83,7 +130,37 @@ int main(int argc, char** argv) {
     auto mc = mined.same_coupon[g.below(mined.same_coupon.size())];
     int pin_a = (int)g.below(nin), pin_b = (int)g.below(nin);
     if (plan == 1 && pin_a == pin_b) pin_b = (pin_a + 1) % nin;
-    for (int i = 0; i < nin; i++) {
+    std::unique_ptr<hll_sketch> dsk[NIN];      // directed segment: restored copy of input i, sketch id 13 + i
+    if (rst_seg) for (int i = 0; i < nin; i++) {
+      uint8_t lgk = (uint8_t)std::min(maxlgk, std::max(minlgk, (long)lgmax + g.range(-1, 1)));
+      long k = 1L << lgk;
+      in[i].reset(new hll_sketch(lgk, tt(T3[i % 3]), i >= 3));
+      emit_new(i, *in[i]);
+      int state = (i + rst_off) % 3;          // 0: empty, 1: exactly one item, 2: right after reset()
+      if (state == 2) {
+        std::vector<Item> pre; long np = g.range(3, 40); for (long j = 0; j < np; j++) pre.push_back(draw(g, universe));
+        feed(i, *in[i], pre);
+        in[i]->reset();
+        View v = view(*in[i], false);
+        Ev("Reset").i("id", i).i("mode", v.mode).b("empty", in[i]->is_empty()).emit();
+      }
+      if (state == 1) { Item it; do it = draw(g, universe); while (it.type == 10 && it.sv.empty()); feed(i, *in[i], {it}); }
+      obs1(i, *in[i]);
+      dsk[i] = round_trip(i, *in[i], 13 + i, i % 3, ((i + rst_off) % 4) & 1, ((i + rst_off) % 4) >> 1);
+      // continue both with the same items, to every fill level
+      long n;
+      switch (i) { case 0: n = g.range(1, 7); break; case 1: n = lgk >= 8 ? g.range(8, 3 * k / 32) : g.range(9, k); break; case 2: n = g.range(3 * k / 32 + 2, 2 * k); break;
+                   case 3: n = g.range(k, 4 * k); break; case 4: n = g.chance(50) ? 0 : g.range(1, 7); break; default: n = g.range(1, 3 * k); }
+      n = std::min(n, cap);
+      std::vector<Item> items; for (long j = 0; j < n; j++) items.push_back(g.chance(5) ? pool.pick(g, 12) : draw(g, universe));
+      // in two steps, observing both in between
+      std::vector<Item> first(items.begin(), items.begin() + items.size() / 3), rest(items.begin() + items.size() / 3, items.end());
+      feed(i, *in[i], first); feed(13 + i, *dsk[i], first, true);
+      obs1(i, *in[i]); obs_restored(13 + i, *dsk[i], i, *in[i]);
+      feed(i, *in[i], rest); feed(13 + i, *dsk[i], rest, true);
+      obs1(i, *in[i]); obs_restored(13 + i, *dsk[i], i, *in[i]);
+    }
+    for (int i = 0; i < (rst_seg ? 0 : nin); i++) {
       // lg_k relative to lg_max_k: smaller, equal, larger all likely
       uint8_t lgk = (uint8_t)(g.chance(40) ? g.range(minlgk, maxlgk) : std::min(maxlgk, std::max(minlgk, (long)lgmax + g.range(-2, 2))));
       // high-precision segment: input 0 strictly larger than lg_max_k where possible, input 1 equal, input 2 smaller (>= 17),
@@ -167,45 +244,41 @@ int main(int argc, char** argv) {
     int restored_of[NIN]; std::unique_ptr<hll_sketch> rs[3]; int nrs = 0;
     for (int i = 0; i < nin; i++) {
       restored_of[i] = -1;
-      if (nrs < 3 && g.chance(3 * serde_pct)) {
-        bool compact = g.chance(50), stream = g.chance(50);
-        auto bytes = compact ? in[i]->serialize_compact() : in[i]->serialize_updatable();
-        std::ostringstream os; if (compact) in[i]->serialize_compact(os); else in[i]->serialize_updatable(os);
-        std::string st = os.str();
-        std::vector<uint8_t> img(bytes.begin(), bytes.end());
-        View v = view(*in[i], false);
-        long long mx = v.type == 4 ? -1 : (long long)hll_sketch::get_max_updatable_serialization_bytes((uint8_t)v.lgk, tt(v.type));
-        auto cn = canon(img);
-        Ev("Ser").i("src", i).i("blob", nrs).str("form", compact ? "compact" : "updatable").i("hdr", 0).i("total", (long long)img.size())
-          .i("size", (long long)img.size())
-          .i("advertised", (long long)(compact ? in[i]->get_compact_serialization_bytes() : in[i]->get_updatable_serialization_bytes()))
-          .i("maxsize", mx).bytes("img", img.data(), img.size()).bytes("img0", img.data(), img.size()).bytes("simg", st.data(), st.size())
-          .bytes("canon", cn.data(), cn.size()).raw("p", light(i, *in[i])).emit();
-        long long consumed;
-        if (!stream) { rs[nrs].reset(new hll_sketch(hll_sketch::deserialize(img.data(), img.size()))); consumed = (long long)img.size(); }
-        else {
-          std::string inn((const char*)img.data(), img.size()); inn += std::string(16, '\x5a');
-          std::istringstream is(inn);
-          rs[nrs].reset(new hll_sketch(hll_sketch::deserialize(is)));
-          consumed = (long long)is.tellg();
-        }
-        auto re = compact ? rs[nrs]->serialize_compact() : rs[nrs]->serialize_updatable();
-        std::vector<uint8_t> rev(re.begin(), re.end());
-        auto rcn = canon(rev);
-        View dv = view(*rs[nrs], false);
-        Ev("Deser").i("blob", nrs).i("dst", NIN + nrs).str("path", stream ? "stream" : "bytes").str("form", compact ? "compact" : "updatable")
-          .i("type", dv.type).i("mode", dv.mode).b("empty", rs[nrs]->is_empty()).i("consumed", consumed)
-          .bytes("reimg", rev.data(), rev.size()).bytes("recanon", rcn.data(), rcn.size())
-          .raw("r", proj(NIN + nrs, *rs[nrs])).b("restored", true).emit();
+      if (!rst_seg && nrs < 3 && g.chance(3 * serde_pct)) {
+        rs[nrs] = round_trip(i, *in[i], NIN + nrs, nrs, g.chance(50), g.chance(50));
         restored_of[i] = nrs++;
       }
     }
-    bool with_reset = !adopt && g.chance(12);
+    bool with_reset = !adopt && !rst_seg && g.chance(12);
+    if (rst_seg && raw.empty()) raw.push_back(draw(g, universe));
+    std::unique_ptr<hll_sketch> ures[3], urst[3];      // directed segment: union results 10..12 and their restored copies 19..21
     std::unique_ptr<hll_union> un[3];
     for (int p = 0; p < 3; p++) {
       un[p].reset(new hll_union(lgmax));
       hll_union& u = *un[p];
       { Ev e("UNew"); e.i("u", p).i("lgmaxk", lgmax); scalars(e, u); e.emit(); }
+      if (rst_seg && p == 0) {
+        auto keep = [&](int n) {
+          int t = T3[(n + (int)seg) % 3];
+          ures[n].reset(new hll_sketch(u.get_result(tt(t))));
+          Ev e("UResultAs"); e.i("u", p).i("type", t).i("dst", 10 + n).raw("r", proj(10 + n, *ures[n])); scalars(e, u); e.emit();
+          urst[n] = round_trip(10 + n, *ures[n], 19 + n, n, ((n + rst_off + 1) % 4) & 1, ((n + rst_off + 1) % 4) >> 1);
+        };
+        keep(0);                                                        // result of the EMPTY union
+        { const Item& it = raw[0]; Coupon c{0, 0}; bool counted = ref_coupon(it, c); do_update(u, it);
+          Ev e(counted ? "UItem" : "UItemIgnored"); e.i("u", p).str("ty", TYPES[it.type]);
+          if (counted) e.raw("c", "[" + std::to_string(c.addr) + "," + std::to_string(c.val) + "]"); scalars(e, u); e.emit(); }
+        keep(1);                                                        // after exactly one item
+        u.reset(); { Ev e("UReset"); e.i("u", p); scalars(e, u); e.emit(); }
+        keep(2);                                                        // right after reset()
+        // continue result and restored copy with the same items
+        for (int n = 0; n < 3; n++) {
+          long k = 1L << lgmax; long cnt = n == 0 ? g.range(1, 7) : (n == 1 ? g.range(9, 2 * k) : g.range(3 * k / 32 + 2, 3 * k));
+          std::vector<Item> items; for (long j = 0; j < std::min(cnt, cap); j++) items.push_back(draw(g, universe));
+          feed(10 + n, *ures[n], items, false); feed(19 + n, *urst[n], items, true);
+          obs1(10 + n, *ures[n]); obs_restored(19 + n, *urst[n], 10 + n, *ures[n]);
+        }
+      }
       // presentation order: a permutation of inputs and raw items
       std::vector<int> order;                   // >= 0: input index, < 0: raw item -(j+1)
       for (int i = 0; i < nin; i++) order.push_back(i);
@@ -242,7 +315,8 @@ int main(int argc, char** argv) {
         if (o >= 0) {
           bool rvalue = g.chance(45);
           int sid = (restored_of[o] >= 0 && p > 0) ? NIN + restored_of[o] : o;     // presentations 1, 2 use the restored copy
-          const hll_sketch& src = sid >= NIN ? *rs[sid - NIN] : *in[o];
+          if (rst_seg && p > 0) sid = 13 + o;
+          const hll_sketch& src = sid >= 13 ? *dsk[sid - 13] : (sid >= NIN ? *rs[sid - NIN] : *in[o]);
           if (rvalue) { hll_sketch tmp(src); u.update(std::move(tmp)); } else u.update(src);
           Ev e("UUpdate"); e.i("u", p).i("src", sid).b("rvalue", rvalue); scalars(e, u);
           if (sid >= NIN) e.b("restored", true);
@@ -262,6 +336,34 @@ int main(int argc, char** argv) {
     }
     // results fed back as inputs: get_result(HLL_4 | HLL_6 | HLL_8) of the three unions become sketches 10..12 and are presented,
     // with one of the original inputs, to a fourth union (lvalue / rvalue, random order, observers)
+    if (rst_seg) {
+      // the continued results and their continued restored copies as operands of two further unions: same outcome
+      std::unique_ptr<hll_union> ux[2];
+      for (int w = 0; w < 2; w++) {
+        ux[w].reset(new hll_union(lgmax));
+        { Ev e("UNew"); e.i("u", 4 + w).i("lgmaxk", lgmax); scalars(e, *ux[w]); e.emit(); }
+        for (int n = 0; n < 3; n++) {
+          int sid = (w == 0 ? 10 : 19) + n; const hll_sketch& src = w == 0 ? *ures[n] : *urst[n];
+          bool rvalue = (n + w) % 2 == 0;
+          if (rvalue) { hll_sketch tmp(src); ux[w]->update(std::move(tmp)); } else ux[w]->update(src);
+          Ev e("UUpdate"); e.i("u", 4 + w).i("src", sid).b("rvalue", rvalue); scalars(e, *ux[w]); if (w) e.b("restored", true); e.emit();
+        }
+        { hll_sketch r = ux[w]->get_result(HLL_8); Ev e("UResult"); e.i("u", 4 + w).i("type", 8).raw("r", proj(9, r)); scalars(e, *ux[w]); if (w) e.b("restored", true); e.emit(); }
+        { Ev e("UEst"); e.i("u", 4 + w); est_fields(e, *ux[w]); scalars(e, *ux[w]); if (w) e.b("restored", true); e.emit(); }
+      }
+      // side by side (equal ghost states => equal estimates)
+      double ce[2], rc[2]; std::string o = "[";
+      for (int w = 0; w < 2; w++) {
+        hll_sketch r = ux[w]->get_result(HLL_8); View v = view(r, false);
+        ce[w] = ux[w]->get_composite_estimate(); rc[w] = r.get_composite_estimate();
+        Ev x("x"); x.s = "{\"u\":" + std::to_string(4 + w); x.i("mode", v.mode).d("cest", ce[w]).d("rcest", rc[w]); x.s += "}";
+        if (w) o += ","; o += x.s;
+      }
+      auto rel = [](double a, double b) -> long long { double m = std::max(std::fabs(a), std::fabs(b)); if (m == 0) return 0; double d = std::fabs(a - b) / m * 1e12; return d > 1e9 ? 1000000000LL : (long long)std::llround(d); };
+      std::string dq = "[";
+      for (int a = 0; a < 2; a++) { dq += a ? ",[" : "["; for (int b = 0; b < 2; b++) { if (b) dq += ","; dq += "[" + std::to_string(rel(ce[a], ce[b])) + "," + std::to_string(rel(rc[a], rc[b])) + "]"; } dq += "]"; }
+      Ev("UCompare").raw("objs", o + "]").raw("dq", dq + "]").b("restored", true).emit();
+    } else
     if (g.chance(60)) {
       std::unique_ptr<hll_sketch> res[3];
       for (int p = 0; p < 3; p++) {
